@@ -454,7 +454,7 @@ class Rewriter:
             text = text[:mt.start()] + text[e:]
 
     def r3_pin(self, scope, text):
-        for rx, new in ((r"\bmut\s+self\s*:\s*Pin<&mut Self>", "&mut self"), (r"\bself\s*:\s*Pin<&mut Self>", "&mut self"),
+        for rx, new in ((r"\bself\.get_mut\(\)", "self"), (r"Pin::new\(&mut\s+([\w.]+)\)", r"\1"),(r"\bmut\s+self\s*:\s*Pin<&mut Self>", "&mut self"), (r"\bself\s*:\s*Pin<&mut Self>", "&mut self"),
                         (r"\bself\s*:\s*Pin<&mut\s+Self>", "&mut self")):
             for mt in list(re.finditer(rx, text)):
                 self.note("R3", scope, mt.group(0), new)
@@ -704,7 +704,7 @@ def build(unit_path, mode="verify"):
                 derive = [x for x in opts["derive"].split(",") if x]
             elif derive is not None:
                 derive = [x for x in derive if x in ("Clone", "Copy", "PartialEq", "Eq", "Debug")]
-            new = _strip_inner_attrs(_drop_docs(body))
+            new = _strip_inner_attrs(_apply_cfg(_drop_docs(body), u.features, rw, name))
             new = _pubify_fields(new) if kind == "struct" else new
             new = rw.apply(name, new)
             if kind == "struct" and name in u.fields:
@@ -862,6 +862,27 @@ def _drop_docs(t):
     return "\n".join(out)
 
 
+def _apply_cfg(t, features, rw, scope):
+    """R10: `#[cfg(feature = "x")]` / `#[cfg(not(feature = "x"))]` on a field/statement: keep or drop the
+    following line-item according to the unit's feature set."""
+    lines = t.split("\n")
+    out = []
+    i = 0
+    while i < len(lines):
+        s = lines[i].strip()
+        mt = re.match(r'#\[cfg\((not\()?feature\s*=\s*"([^"]+)"\)?\)\]$', s)
+        if mt and i + 1 < len(lines):
+            on = (mt.group(2) in features) != bool(mt.group(1))
+            if on:
+                out.append(lines[i + 1])
+            rw.note("R10", scope, s + " " + lines[i + 1].strip(), lines[i + 1].strip() if on else "")
+            i += 2
+            continue
+        out.append(lines[i])
+        i += 1
+    return "\n".join(out)
+
+
 def _strip_inner_attrs(t):
     """drop #[...] attributes inside an item body (derive-helper attributes such as #[display(..)], #[error(..)])"""
     while True:
@@ -917,6 +938,19 @@ def self_emit_fn(em, res, u, rw, qual, sig, body, orig, rel, self_subst, mode, d
         sig = re.sub(re.escape(k) + r"\b", v, sig)
         body = re.sub(re.escape(k) + r"\b", v, body)
     sig = rw.apply(qual + "#sig", sig)
+    if re.search(r"\(\s*mut\s+self\s*[,)]", sig):
+        # R21: by-value `mut self` is not supported by Verus: bind it to a mutable local of another name
+        sig = re.sub(r"\(\s*mut\s+self(\s*[,)])", r"(self\1", sig)
+        bm0 = rl.mask(body)
+        outb = []
+        last = 0
+        for mt in re.finditer(r"\bself\b", bm0):
+            outb.append(body[last:mt.start()] + "self__")
+            last = mt.end()
+        outb.append(body[last:])
+        body = "".join(outb)
+        body = "{ let mut self__ = self;" + body[1:]
+        rw.note("R21", qual, "mut self", "self + `let mut self__ = self;` (body occurrences renamed)")
     rname = u.sigs.get(qual, "r")
     sig_new = _name_result(sig, rname)
     # ---- body ----
